@@ -77,6 +77,16 @@ class C15(Prop):
             qs = [(rng.randrange(n), rng.randrange(m)) for _ in range(rng.randint(8, 20))]
             yield dict(entry="Elicitor", family="mixed_session", rule="SEQ", V=V, qs=qs, memoize=bool(i % 5), ezi=bool(i % 4 < 2), integer=integer,
                        cls=["lambda", "profile"][i % 7 == 0], multiple=True, split=rng.randint(2, len(qs) - 5), tail=rng.randint(0, 3))
+        # a rejected answer asked again: an integer elicitor whose user answers one question with a non-integer (ValueError every time it is asked);
+        # the session goes on after each error. The memo clauses hold on this path as well: nothing is forwarded twice, the counter counts the forwards
+        for i in range(30 if tier == "quick" else 500):
+            n = rng.randint(1, 4); m = rng.randint(2, 5)
+            V = [[float(rng.randint(0, 9)) for _ in range(m)] for _ in range(n)]
+            bad = (rng.randrange(n), rng.randrange(m)); V[bad[0]][bad[1]] = rng.choice([2.5, 0.5, 7.25])
+            qs = [(rng.randrange(n), rng.randrange(m)) for _ in range(rng.randint(3, 8))] + [bad] * rng.randint(2, 4)
+            rng.shuffle(qs)
+            yield dict(entry="Elicitor", family="rejected_answer_repeats", rule="SEQ", V=V, qs=qs, memoize=bool(i % 4), ezi=bool(i % 2), integer=True,
+                       cls="lambda", multiple=False, per_question=True)
         # indices that cross from one to two decimal digits: any key or cache that identifies a question by a concatenated / fixed-width
         # representation of (agent, alternative) confuses (1, 10+x) with (11, x)
         for i in range(16 if tier == "quick" else 200):
@@ -125,6 +135,12 @@ class C15(Prop):
                     trace.append((int(a), int(b))); return V[a - fixer][b - fixer]
                 el = (IntegerLambdaElicitor if case["integer"] else LambdaElicitor)(cb, memoize=case["memoize"], zero_indexed=case["ezi"])
                 f = fixer
+            if case.get("per_question"):      # every question on its own; a ValueError is recorded and the session continues
+                ans = []
+                for a, b in case["qs"]:
+                    try: ans.append(float(el.elicit(a, b)))
+                    except ValueError: ans.append("ValueError")
+                return dict(status="ok", answers=ans, trace=trace, count=el.elicitation_count, fixer=f, types_ok=True)
             if case["multiple"]:
                 sp = case.get("split", 0); tl = len(case["qs"]) - case.get("tail", 0)
                 qs1, qs2, qs3 = case["qs"][:sp], case["qs"][sp:tl], case["qs"][tl:]
@@ -165,6 +181,15 @@ class C15(Prop):
             V = [[float("nan") if x is None else x for x in row] for row in case["V"]]; integer = case["integer"]
             if case["cls"] == "profile" and not all(float(x).is_integer() for row in V for x in row):
                 integer = False   # an IntegerValuationProfile cannot hold non-integers: the float elicitor is used for this case
+            if case.get("per_question"):
+                if obs["status"] != "ok": return ("no_result", "elicitor failed: %s %s" % (obs.get("err"), obs.get("msg")))
+                want = [(float(V[a][b]) if float(V[a][b]).is_integer() else "ValueError") for a, b in case["qs"]]
+                if obs["answers"] != want: return ("wrong_answer", "answers %r, expected %r" % (obs["answers"], want))
+                fw = [(a - obs["fixer"], b - obs["fixer"]) for a, b in obs["trace"]]
+                if case["memoize"] and len(set(fw)) != len(fw): return ("question_forwarded_twice", "a memoising elicitor forwarded a question twice (%r)" % (fw,))
+                if not case["memoize"] and fw != [tuple(q) for q in case["qs"]]: return ("wrong_forwards", "non-memoising elicitor must forward every question")
+                if obs["count"] != len(fw): return ("wrong_counter", "elicitation_count %d, forwarded %d" % (obs["count"], len(fw)))
+                return None
             nonint = [(a, b) for a, b in case["qs"] if not float(V[a][b]).is_integer()]
             if integer and nonint:
                 if obs["status"] == "err" and obs["err"] == "ValueError": return None
@@ -215,7 +240,7 @@ class C15(Prop):
 
     def coq(self, case, obs):
         if case["rule"] == "SEQ":
-            if obs["status"] != "ok": return None
+            if obs["status"] != "ok" or case.get("per_question"): return None
             NANQ = -987654321.0    # NaN answers are carried through the model as one reserved rational on both sides
             Vq = [[NANQ if x is None else x for x in row] for row in case["V"]]
             rc = E.run_case_lit(case["memoize"], obs["fixer"], Vq, cl([cq(frac(NANQ if x is None else x)) for x in obs["answers"]]), obs["trace"], obs["count"])
